@@ -18,20 +18,35 @@ import time
 from harness import lang_env as E
 from harness import lang_gen as G
 
-GEN = ['lang_tables']
+GEN = ['lang_tables', 'lang_schemas']
+LEAN_MODULES = ['Mistral.Props.C14', 'Mistral.Props.C14Schema']
 MANIFEST = {
-    'technique': 'Lean 4 theorems over a model of the workbook text cutter, spec-dict normalisation and the graph '
-                 'checks of workflow validation; differential check of that model against the real functions; '
-                 'time-limited totality/stability monitor over a structure-aware mutation stream on every '
-                 'parser/service/validate entry point',
+    'technique': 'Lean 4 theorems over a model of the workbook text cutter, spec-dict normalisation, the graph '
+                 'checks of workflow validation and the JSON-schema level (a total interpreter of the schema keywords '
+                 'mistral uses, run over the schemas regenerated from the real get_schema() of every spec class); '
+                 'differential check of these models against the real functions (the schema interpreter against the '
+                 'real jsonschema on every value the parsers validate); time-limited totality/stability monitor over a '
+                 'structure-aware mutation stream on every parser/service/validate entry point',
     'text': 'Theorems: cutDef (= _parse_def_from_wb) returns exactly the dedented member for every canonically '
             'rendered workbook whose section keyword first occurs at the section line and whose member name does not '
             'equal an earlier stripped line (cutDef_correct_partial; the unrestricted statement is refuted by a '
             'witness that is replayed on the real code); normalisation is idempotent; graph validation accepted '
             'implies start task exists, every transition target / requirement exists, every join has enough inbound '
-            'tasks. Totality, hang-freedom and re-read stability are decided by the monitor on the real code.',
-    'note': 'totality/hangs are monitor-only (time limit, sampled inputs); PyYAML, jsonschema, re, yaql, jinja2, '
-            'sqlite are exercised but not modelled; check_schema memoised by schema content (validated by stream seam)',
+            'tasks. Schema level (Props.C14Schema, over the generated schemas): for every spec class, a value its '
+            'schema accepts has the shape the constructor relies on without checking (tasks a non-empty dict of '
+            'non-empty string-keyed dicts, type direct/reverse, join all/one/non-negative integer, retry dict with '
+            'delay and count or one-line string, with-items / requires string or list of strings, on-clauses exactly '
+            'the forms OnClauseSpec handles, policies expression or non-negative integer / bool, only declared string '
+            'keys, name / base / version present ...: *_accept_shape, one theorem per class); a non-string key below '
+            'patternProperties is a rejection; a schema is the conjunction of its keywords, allOf / anyOf / oneOf '
+            'facts; a task named `version` is accepted but never instantiated (tasks_all_instantiated_full_fails, '
+            'replayed; _partial for every other name). Schema validation is total by construction (structural '
+            'recursion, no $ref, the TypeError of a non-string key is part of the result). Hang-freedom, the '
+            'expression / YAML / regex engines and re-read stability are decided by the monitor on the real code.',
+    'note': 'totality of the whole entry points and hangs are monitor-only (time limit, sampled inputs); PyYAML, re, '
+            'yaql, jinja2, sqlite are exercised but not modelled; jsonschema is modelled for the keyword subset that '
+            'occurs (translator refuses anything else) and tied by the streams schema / schema-re / schema-eq; '
+            'check_schema memoised by schema content (validated by stream seam)',
 }
 RULE = ('documents = bundled YAML + generated workflow lists/workbooks/action lists (direct/reverse, joins, policies, '
         'with-items, publish, on-clauses in string/list/dict/next+publish forms, task-defaults) + hand-written corner '
@@ -39,14 +54,36 @@ RULE = ('documents = bundled YAML + generated workflow lists/workbooks/action li
         'every document goes to all three parsers and, when a parser accepts, to the services. A case is non-trivial '
         'when at least one entry point got past YAML parsing and schema type-of-root checks (verdict is not the same '
         'for all three parsers) or it was accepted; distinct = distinct text. cut/norm/graph streams: non-trivial '
-        'when the item is found / a key is injected / the graph has a transition, join or requirement.')
+        'when the item is found / a key is injected / the graph has a transition, join or requirement. schema stream: '
+        'cases = (spec class, value) pairs: every call of BaseSpec.validate_schema the real parsers/services made on '
+        'those documents (recorded), every node of every parsed document against the classes of its role (raw and '
+        'with the name/version/type injections), random node x class pairs, ~220 hand-written corner values x every '
+        'class; compared: accept/reject, TypeError reached, multiset of (path, failing keyword) of all errors; '
+        'non-trivial = rejected or a dict; distinct = distinct (class, value). schema-ctor: accepted values through '
+        'the real constructor + validate_semantics. schema-re: every pattern x harvested keys/strings, alphabet '
+        'soups, non-ASCII word/space characters; non-trivial = match. schema-eq: node pairs; non-trivial = equal.')
 TRUSTED = [
     'totality ("never an internal error") and hang-freedom are NOT theorems: they are evaluated by the monitor on the '
     'sampled mutation stream; hangs are decided on CPU time of the check process (limit = max(5 s, 200 x the CPU time '
     'of validating the largest bundled definition, measured in the same process) and on CPU-time growth over size '
     'doublings for 17 input families; the wall-clock watchdog (>= 300 s) is an infrastructure guard only (exit 2); '
     'ReDoS / regex engine is not modelled',
-    'PyYAML, jsonschema, python re, yaql, jinja2, sqlalchemy+sqlite are third-party and only exercised',
+    'PyYAML, python re, yaql, jinja2, sqlalchemy+sqlite are third-party and only exercised; jsonschema is modelled '
+    '(Model/Schema.lean, written after jsonschema 4.x _keywords.py/_utils.py/_types.py for the validator class that '
+    'jsonschema.validate picks, Draft 2020-12; the translator refuses another validator class, any keyword outside '
+    'type/enum/minimum/minLength/minItems/min-/maxProperties/uniqueItems/pattern/required/properties/'
+    'patternProperties/additionalProperties/items/allOf/anyOf/oneOf/not, $ref, and any regular expression other '
+    'than the 8 known ones) and tied by correspondence, not proved equivalent; best_match / the error text are not '
+    'modelled',
+    'schema model: regular expressions are decided by a small matcher (Model/Schema.lean matchHere) over atoms '
+    'produced by python\'s own regex parser, \\w / \\s tables read from the running python: tied by stream schema-re, '
+    'nothing is proved about it; nan equals nan (PyYAML yields one nan object); uniqueItems is "no two equal elements" '
+    '(the sorted fast path of _utils.uniq differs only for lists of numbers containing nan: compared on the verdict '
+    'only); the order of the errors yielded before a TypeError by additionalProperties-with-schema follows a python '
+    'set and is not compared; YAML values of no JSON type (date, bytes, set) are opaque',
+    'harness seams of the schema stream: a recorder around BaseSpec.validate_schema and parser.parse_yaml (off during '
+    'the scaling probes); while the stream itself calls validate_schema on bare spec objects str(ValidationError) is '
+    'the bare message (the pretty-printed text costs 17 ms per rejection; first 150 rejections use the real __str__)',
     'harness seam: jsonschema check_schema is memoised by schema content (stream `seam` compares with the un-memoised run)',
     'in-memory sqlite, one non-admin auth context, default configuration (validation_mode=enabled)',
     'regular-expression dependent parts of normalisation (inline `key=value` parameters) are given to the model as '
@@ -619,6 +656,45 @@ def check_transitions(ctx, st, entry, text, origin, spec):
                         {'kind': 'accepted-transition-lost', 'form': form})
 
 
+def check_tasks_kept(ctx, st, entry, text, origin, spec):
+    """Statement "an accepted definition … is the same definition (tasks, …)": every key of the `tasks` section of
+    an accepted workflow is a task of the specification.  Model side (Tie B of `specListMembers`): the keys
+    `BaseSpecList.__init__` instantiates, through the driver."""
+    from harness import schema_stream as S
+    try:
+        d = st['sp'].parse_yaml(text)
+    except Exception:
+        return
+    if not isinstance(d, dict):
+        return
+    if entry == 'parse.wf':
+        wfs = [(w.get_name(), w, d.get(w.get_name())) for w in spec.get_workflows()]
+    elif entry == 'parse.wb' and spec.get_workflows():
+        src = d.get('workflows') if isinstance(d.get('workflows'), dict) else {}
+        wfs = [(w.get_name(), w, src.get(w.get_name())) for w in spec.get_workflows()]
+    else:
+        return
+    for wname, w, src in wfs:
+        if not isinstance(src, dict) or not isinstance(src.get('tasks'), dict):
+            continue
+        written = [k for k in src['tasks']]
+        got = list(w.get_tasks().item_keys())
+        try:
+            model = ctx.driver().call('schema.members', {'doc': S.enc(src['tasks'])})
+        except S.Untransportable:
+            continue
+        ctx.evaluated('taskskept', [text_hash(text), wname], nontrivial=len(written) > 1)
+        if model != got:
+            ctx.disagree('taskskept', {'text': text, 'workflow': wname}, model, got)
+        lost = [k for k in written if k not in got]
+        if lost:
+            ctx.count('taskskept', 'lost:%s' % ','.join(map(str, lost)))
+            ctx.violation('accepted workflow %r: the task(s) %r written in `tasks` are not part of the specification '
+                          '(never validated, never run); tasks of the specification: %r' % (wname, lost, got),
+                          {'kind': 'doc', 'entry': entry, 'text': text, 'origin': origin},
+                          {'kind': 'accepted-task-lost', 'names': sorted(map(str, lost))})
+
+
 def check_no_alias_sharing(ctx, st, text, origin):
     """mechanism "YAML loaded with a hardened loader (no anchors/aliases)": the loaded document is a tree, no
     container object is reachable through two paths (which is what `*alias` / `<<: *alias` expansion produces)."""
@@ -684,6 +760,7 @@ def run_doc(ctx, st, text, origin, limit, do_services=True, do_stability=True):
         ctx.count('lang', 'accepted:' + entry)
         check_expr_fields(ctx, st, entry, text, origin)
         check_transitions(ctx, st, entry, text, origin, spec)
+        check_tasks_kept(ctx, st, entry, text, origin, spec)
         if not do_stability:
             continue
         kind, det, _ = E.guarded(lambda: stability(ctx, st, entry, text, origin, spec, members_of(st, entry, spec)), limit * 4)
@@ -780,6 +857,8 @@ def correspond(ctx):
     from vlib import par
     par.run_parallel(ctx, 'harness.defupdate_stream', 'run_chunk', [{'n_cases': ctx.n(5, 120)}] * 14)
     st = env()
+    from harness import schema_stream as S
+    S.install(st)              # records every (spec class, data) the real parsers / services validate
     rng = ctx.rng
     limit = LIMIT_Q
     t_start = time.time()
@@ -810,7 +889,11 @@ def correspond(ctx):
         ctx.count('lang', 'origin:corner')
     run_targeted(ctx, st, limit)
     # ---- 2b. scaling probes ("never hangs", decided on CPU-time growth, not on a wall-clock limit)
-    run_probes(ctx, st)
+    S.pause()                  # the probes measure CPU time of the unmodified validation
+    try:
+        run_probes(ctx, st)
+    finally:
+        S.resume()
     # ---- 3. generated valid definitions in all syntactic forms
     n_gen = ctx.n(120, 1500)
     gen_pool = []
@@ -866,6 +949,8 @@ def correspond(ctx):
     # ---- 6. model correspondence
     from harness import lang_model as M
     M.correspond_model(ctx, st, pool)
+    # ---- 6b. schema level: Lean interpreter over the generated schemas vs the real validate_schema
+    S.run(ctx, st)
     # ---- 7. /validate controllers
     api_validate(ctx, st, pool, rng, limit)
     # margin of the watchdog: slowest call that did finish, as a fraction of its time limit
@@ -1094,6 +1179,11 @@ def search(ctx):
     M.search_model(ctx, st)
     if ctx.violations:
         return
+    from harness import schema_stream as S
+    S.install(st)
+    S.search(ctx, st)
+    if ctx.violations:
+        return
     old = ctx.tier
     ctx.tier = 'thorough'
     try:
@@ -1134,6 +1224,9 @@ def replay(ctx, rep):
     elif r.get('kind') == 'probe':
         run_probes(ctx, st, only=r['family'])
         print('replay: scaling probe %s' % ctx.cov.get('scaling_probes'))
+    elif r.get('kind') in ('schema', 'schema-ctor'):
+        from harness import schema_stream as S
+        S.replay(ctx, st, r)
     else:
         from harness import lang_model as M
         M.replay_model(ctx, st, r)
